@@ -24,7 +24,9 @@ Inductive src :=
 | SNull
 | SStruct (cs : list src).               (* structural (TSL/TSB composed at the call site) *)
 
-(* WiringInputRef; [in_passive] is the Passive ArgTag carried by the source port (`passive(port)`) *)
+(* WiringInputRef; [in_passive] is the Passive ArgTag carried by the source port (`passive(port)`):
+   Wiring::add_node removes such a slot from the builder's active list and - since
+   hooks/fix_passive_marker_in_key.patch - records it in the InputKey *)
 Record input := { in_src : src; in_tpath : list nat; in_rank : bool; in_passive : bool }.
 
 (* what the caller passes besides the inputs: definition identity (std::type_index), the resolved
@@ -93,20 +95,17 @@ Fixpoint norm_from (k : nat) (ins : list input) : list input :=
   end.
 Definition norm_inputs (ins : list input) : list input := norm_from 0 ins.
 
-(* The InputKey list of the code: source key, normalised target path, rank flag.  The Passive tag of
-   the source port is NOT part of it (source_key_for ignores arg_tag; add_node applies the tag to the
-   builder's active list, which is not one of the schema pointers of the key): mirrored by erasing it. *)
-Fixpoint key_from (k : nat) (ins : list input) : list input :=
-  match ins with
-  | [] => []
-  | i :: r =>
-      {| in_src := in_src i; in_tpath := (match in_tpath i with [] => [k] | p => p end); in_rank := in_rank i;
-         in_passive := false |}
-      :: key_from (S k) r
-  end.
-Definition key_inputs (ins : list input) : list input := key_from 0 ins.
+(* The InputKey list of the code (REPAIRED tree, hooks/fix_passive_marker_in_key.patch): source key,
+   normalised target path, rank flag and the passive marker of the slot.  [clear_passive] / the
+   [_old] definitions keep the rule of the unrepaired code (marker not in the key) as a named variant. *)
+Definition key_inputs (ins : list input) : list input := norm_inputs ins.
+
+Definition clear_passive (i : input) : input :=
+  {| in_src := in_src i; in_tpath := in_tpath i; in_rank := in_rank i; in_passive := false |}.
+Definition key_inputs_old (ins : list input) : list input := map clear_passive (norm_inputs ins).
 
 Definition make_key (d : ndef) (ins : list input) : key := (nd_def d, nd_sch d, key_inputs ins, nd_scal d).
+Definition make_key_old (d : ndef) (ins : list input) : key := (nd_def d, nd_sch d, key_inputs_old ins, nd_scal d).
 
 (* `const bool interns = schema.output != nullptr` *)
 Definition has_output (d : ndef) : bool := negb (hdz (nd_sch d) =? 0).
@@ -181,18 +180,16 @@ Definition all_passive (ins : list input) : bool :=
   existsb in_passive ins && existsb in_rank ins && negb (existsb (fun i => in_rank i && negb (in_passive i)) ins).
 
 (* add_unique_node never looks at the Passive tag: for such a node the markers are simply dropped *)
-Definition clear_passive (i : input) : input :=
-  {| in_src := in_src i; in_tpath := in_tpath i; in_rank := in_rank i; in_passive := false |}.
 Definition eff_inputs (d : ndef) (rins : list input) : list input :=
   if nd_uniq d then map clear_passive rins else rins.
 
-Definition wire_node (sharing : bool) (w : wst) (l : nat) (d : ndef) (ins : list input) : res wst :=
+Definition wire_node_gen (mk : ndef -> list input -> key) (sharing : bool) (w : wst) (l : nat) (d : ndef) (ins : list input) : res wst :=
   match resolve_inputs (w_env w) (w_phs w) ins with
   | None => Err E_INADM
   | Some rins0 =>
       let rins := eff_inputs d rins0 in
       if all_passive rins then Err E_ALLPASSIVE else
-      let k := make_key d rins in
+      let k := mk d rins in
       match (if sharing && interns d then tab_find k (w_tab w) else None) with
       | Some i =>
           Ok {| w_insts := w_insts w; w_tab := w_tab w; w_env := (l, i) :: w_env w;
@@ -205,6 +202,8 @@ Definition wire_node (sharing : bool) (w : wst) (l : nat) (d : ndef) (ins : list
                 w_phs := w_phs w; w_binds := w_binds w; w_deps := w_deps w |}
       end
   end.
+
+Definition wire_node := wire_node_gen make_key.
 
 Definition wire_stmt (sharing : bool) (w : wst) (l : nat) (s : stmt) : res wst :=
   match s with
@@ -246,6 +245,23 @@ Fixpoint wire_from (sharing : bool) (prog : list stmt) (order : list nat) (w : w
   end.
 
 Definition wire_prog (sharing : bool) (prog : list stmt) (order : list nat) : res wst := wire_from sharing prog order w0.
+
+(* the OLD rule (unrepaired code): the same wiring with the passive marker left out of the key *)
+Definition wire_stmt_old (sharing : bool) (w : wst) (l : nat) (s : stmt) : res wst :=
+  match s with
+  | StNode d ins => wire_node_gen make_key_old sharing w l d ins
+  | _ => wire_stmt sharing w l s
+  end.
+Fixpoint wire_from_old (sharing : bool) (prog : list stmt) (order : list nat) (w : wst) : res wst :=
+  match order with
+  | [] => Ok w
+  | l :: r =>
+      match nth_error prog l with
+      | None => Err E_INADM
+      | Some s => match wire_stmt_old sharing w l s with Ok w' => wire_from_old sharing prog r w' | Err c => Err c end
+      end
+  end.
+Definition wire_prog_old (sharing : bool) (prog : list stmt) (order : list nat) : res wst := wire_from_old sharing prog order w0.
 
 (* ---------------------------------------------------------------- finish: rank edges, compiled edges *)
 (* collect_producers; None = an unbound delayed_binding *)
@@ -386,14 +402,11 @@ Fixpoint unf_src (node : nat -> tree) (bind : nat -> option (nat * list nat)) (s
   | SStruct cs => TStruct (map (unf_src node bind) cs)
   end.
 
-(* [pv] = "the passive marker is visible": with [pv = false] the unfolding shows exactly what the
-   interning key sees of an input; with [pv = true] it also shows the marker in force. *)
-Definition unf_inputs (pv : bool) (node : nat -> tree) (bind : nat -> option (nat * list nat)) (ins : list input) : list tree :=
-  map (fun i => TIn (in_tpath i) (in_rank i) (in_passive i) (unf_src node bind (in_src i)))
-      (if pv then norm_inputs ins else key_inputs ins).
+Definition unf_inputs (node : nat -> tree) (bind : nat -> option (nat * list nat)) (ins : list input) : list tree :=
+  map (fun i => TIn (in_tpath i) (in_rank i) (in_passive i) (unf_src node bind (in_src i))) (norm_inputs ins).
 
 (* unfolding of instance i of a wired graph *)
-Fixpoint gunf (pv : bool) (w : wst) (fuel : nat) (i : nat) : tree :=
+Fixpoint gunf (w : wst) (fuel : nat) (i : nat) : tree :=
   match fuel with
   | O => TCut
   | S f =>
@@ -401,7 +414,7 @@ Fixpoint gunf (pv : bool) (w : wst) (fuel : nat) (i : nat) : tree :=
       | None => TCut
       | Some it =>
           TNode (site_of (i_def it) (i_label it)) (nd_def (i_def it)) (nd_sch (i_def it)) (nd_scal (i_def it))
-                (unf_inputs pv (gunf pv w f) (fun h => alookup h (w_binds w)) (i_ins it))
+                (unf_inputs (gunf w f) (fun h => alookup h (w_binds w)) (i_ins it))
       end
   end.
 
@@ -413,13 +426,13 @@ Fixpoint bind_of (prog : list stmt) (h : nat) : option (nat * list nat) :=
   | _ :: r => bind_of r h
   end.
 
-Fixpoint punf (pv : bool) (prog : list stmt) (fuel : nat) (l : nat) : tree :=
+Fixpoint punf (prog : list stmt) (fuel : nat) (l : nat) : tree :=
   match fuel with
   | O => TCut
   | S f =>
       match nth_error prog l with
       | Some (StNode d ins) =>
-          TNode (site_of d l) (nd_def d) (nd_sch d) (nd_scal d) (unf_inputs pv (punf pv prog f) (bind_of prog) ins)
+          TNode (site_of d l) (nd_def d) (nd_sch d) (nd_scal d) (unf_inputs (punf prog f) (bind_of prog) (eff_inputs d ins))
       | _ => TCut
       end
   end.
